@@ -78,8 +78,8 @@ type envB struct {
 	tgt2S     string
 	src2S     string // a layout holding the whole graph (ImageWithReferrerSrc)
 	closeRef2 ref.Ref
-	m    *rm.Model
-	rc   *regclient.RegClient
+	m         *rm.Model
+	rc        *regclient.RegClient
 
 	closeRef ref.Ref
 	closeAt  map[int]bool
@@ -459,7 +459,11 @@ func checkB(cs Case, ev *evid.Collector) *evid.Violation {
 	if err != nil {
 		return &evid.Violation{Sig: "harness-setup", Msg: err.Error()}
 	}
-	defer os.RemoveAll(e.tmp)
+	if probeKeep {
+		probeDir = e.tgt2
+	} else {
+		defer os.RemoveAll(e.tmp)
+	}
 	procs := c.Procs
 	if procs <= 0 {
 		procs = 4
@@ -579,6 +583,17 @@ func checkB(cs Case, ev *evid.Collector) *evid.Violation {
 	}
 	if e.deadCtxCloses > 0 {
 		classes = append(classes, "B:close-with-dead-context")
+	}
+	for i := range c.Copies {
+		if c.Copies[i].Referrers && c.Copies[i].RefTgt != 0 {
+			classes = append(classes, fmt.Sprintf("B:referrer-tgt:%d", c.Copies[i].RefTgt))
+		}
+		if c.Copies[i].Referrers && c.Copies[i].RefSrc != 0 {
+			classes = append(classes, fmt.Sprintf("B:referrer-src:%d", c.Copies[i].RefSrc))
+		}
+	}
+	if e.closes2 > 0 {
+		classes = append(classes, "B:second-layout-closed-from-inside-copies")
 	}
 	nt := e.maxInflight >= 2 && e.closesInCopy > 0
 	key, _ := json.Marshal(struct {
@@ -724,7 +739,82 @@ func checkB(cs Case, ev *evid.Collector) *evid.Violation {
 		}
 		ev.Class("B:final-close-collected")
 	}
+	// ---- the second layout (target of the referrers of copies with ImageWithReferrerTgt) ----
+	uses2 := false
+	for i := range c.Copies {
+		if c.Copies[i].Referrers && c.Copies[i].RefTgt == 2 {
+			uses2 = true
+		}
+	}
+	if !uses2 && e.closes2 == 0 {
+		return nil
+	}
+	p2ctx, p2cancel := context.WithTimeout(ctx, 30*time.Second)
+	_, perr2 := e.rc.BlobPut(p2ctx, e.closeRef2, descriptor.Descriptor{Digest: digest.Digest(rm.Digest("sha256", sentinel)), Size: int64(len(sentinel))}, bytes.NewReader(sentinel))
+	p2cancel()
+	before2 := takeSnap(e.tgt2)
+	rb2 := reach(e.tgt2)
+	rb2.resolveEdges()
+	cerr2 := e.rc.Close(ctx, e.closeRef2)
+	end2 := takeSnap(e.tgt2)
+	if cerr2 != nil && before2.index != "" {
+		if v := report(evid.V("close-returned-error", "final Close of the second layout returned %v", cerr2)); v != nil {
+			return v
+		}
+	}
+	for i, s := range e.copies {
+		if !s.done || s.err != nil {
+			continue
+		}
+		for _, d := range sortedKeys(s.atRet2) {
+			if _, ok := end2.recheck(e.tgt2, digestKey(d)); !ok {
+				if v := report(evid.V("copied-content-lost-after-concurrent-closes-referrer-target-layout", "ImageCopy #%d (node %d, ImageWithReferrerTgt = second layout) returned nil and %s was reachable in the second layout at that instant, but the file is gone after all copies and closes finished",
+					i, c.Copies[i].Node, d)); v != nil {
+					return v
+				}
+			}
+		}
+	}
+	for _, d := range rb2.sorted() {
+		k := digestKey(d)
+		bh, listed := before2.files[k]
+		if h, ok := end2.recheck(e.tgt2, k); !ok || (listed && h != bh) {
+			ed := rb2.edgeOf(d)
+			if v := report(evid.V("gc-removed-reachable-"+ed.sig(), "final Close of the second layout removed/altered %s which its index.json reaches: %s", d, ed.detail)); v != nil {
+				return v
+			}
+		}
+	}
+	if uses2 {
+		ev.Class("B:copy-with-referrer-target-second-layout")
+	}
+	if perr2 == nil && cerr2 == nil && !strayPossible {
+		leftTmp, leftDig := []string{}, []string{}
+		for _, k := range sortedKeys(end2.files) {
+			d := keyDigest(k)
+			if d == "" {
+				if strings.HasSuffix(k, ".tmp") {
+					leftTmp = append(leftTmp, k)
+				}
+			} else if _, in := rb2.info[d]; !in {
+				leftDig = append(leftDig, k)
+			}
+		}
+		if len(leftDig)+len(leftTmp) > 0 {
+			if v := report(evid.V("final-close-did-not-collect-referrer-target-layout", "all %d copies returned and a blob was pushed into the second layout (the target of ImageWithReferrerTgt), but Close of it afterwards left %d unreachable file(s) %v and %d temporary file(s) %v under blobs/ (a GC lock on that layout that was never released keeps its collector off for good)",
+				len(c.Copies), len(leftDig), head(leftDig, 3), len(leftTmp), head(leftTmp, 3))); v != nil {
+				return v
+			}
+		}
+		ev.Class("B:final-close-of-second-layout-collected")
+	}
 	return nil
 }
 
 var _ = imggen.DefaultOptions
+
+// probeKeep / probeDir: debugging aid (a probe test keeps the second layout of the last case).
+var (
+	probeKeep bool
+	probeDir  string
+)
